@@ -47,7 +47,7 @@ type AEv struct {
 	MTOK  bool   `json:"mtok"`            // media type is valid UTF-8
 	CT    uint64 `json:"ct,omitempty"`    // custom type code
 	Multi bool   `json:"multi,omitempty"` // multiline comment
-	CmtOK bool   `json:"cmtok"`           // comment text is expressible (commentOK)
+	POK bool   `json:"pok"`             // payload valid: comment text expressible, time fields in range
 }
 
 func (e AEv) mtOK() bool { return e.MTOK }
@@ -105,7 +105,7 @@ func concMT(e AEv) string {
 }
 
 func newEv(m string) AEv {
-	return AEv{M: m, IDOK: true, IDLen: 1, Bytes: []int{}, MTOK: true, CmtOK: true}
+	return AEv{M: m, IDOK: true, IDLen: 1, Bytes: []int{}, MTOK: true, POK: true}
 }
 
 func (e AEv) String() string {
@@ -317,6 +317,36 @@ func timeKey(t compact_time.Time) string {
 	return fmt.Sprintf("time?%d", t.Type)
 }
 
+// timeOK: the format's ranges for the fields of a time (independent of compact_time.Validate)
+// and an area/location the text grammar can spell.
+var areaLocRE = regexp.MustCompile(`^[A-Z][a-zA-Z0-9_./+-]*$`)
+
+func timeOK(t compact_time.Time) bool {
+	dayMax := []int{0, 31, 29, 31, 30, 31, 30, 31, 31, 30, 31, 30, 31}
+	if t.Type == compact_time.TimeTypeDate || t.Type == compact_time.TimeTypeTimestamp {
+		if t.Year == 0 || t.Month < 1 || t.Month > 12 || t.Day < 1 || int(t.Day) > dayMax[t.Month] {
+			return false
+		}
+	}
+	if t.Type == compact_time.TimeTypeDate {
+		return true
+	}
+	if t.Hour > 23 || t.Minute > 59 || t.Second > 60 || t.Nanosecond > 999999999 {
+		return false
+	}
+	switch t.Timezone.Type {
+	case compact_time.TimezoneTypeAreaLocation:
+		a := t.Timezone.LongAreaLocation
+		return len(a) >= 1 && len(a) <= 127 && areaLocRE.MatchString(a)
+	case compact_time.TimezoneTypeLatitudeLongitude:
+		return t.Timezone.LatitudeHundredths >= -9000 && t.Timezone.LatitudeHundredths <= 9000 &&
+			t.Timezone.LongitudeHundredths >= -18000 && t.Timezone.LongitudeHundredths <= 18000
+	case compact_time.TimezoneTypeUTCOffset:
+		return t.Timezone.MinutesOffsetFromUTC >= -1439 && t.Timezone.MinutesOffsetFromUTC <= 1439
+	}
+	return true
+}
+
 // ---------------------------------------------------------------------------
 // Recorder
 
@@ -367,7 +397,7 @@ func (r *Recorder) OnComment(multi bool, contents []byte) {
 	e := newEv("OnComment")
 	e.Multi = multi
 	e.Bytes = bytesToInts(contents)
-	e.CmtOK = commentOK(multi, contents)
+	e.POK = commentOK(multi, contents)
 	r.add(e)
 	if r.Next != nil {
 		r.Next.OnComment(multi, contents)
@@ -528,6 +558,11 @@ func (r *Recorder) OnTime(v compact_time.Time) {
 	e.DT = "time"
 	e.K = timeKey(v)
 	e.Bytes = bytesToInts([]byte(e.K))
+	if v.IsZeroValue() {
+		e.Sp, e.K, e.Bytes = "nil", "", []int{}
+	} else {
+		e.POK = timeOK(v)
+	}
 	r.add(e)
 	if r.Next != nil {
 		r.Next.OnTime(v)
@@ -887,7 +922,7 @@ func InvokeV(recv events.DataEventReceiver, e AEv, vb *volatileBuf) {
 	case "OnPadding":
 		recv.OnPadding()
 	case "OnComment":
-		if !e.CmtOK && commentOK(e.Multi, data) { // the model's "inexpressible comment" made concrete
+		if !e.POK && commentOK(e.Multi, data) { // the model's "inexpressible comment" made concrete
 			if e.Multi {
 				data = append(append([]byte{}, data...), "*/x"...)
 			} else {
@@ -968,7 +1003,20 @@ func InvokeV(recv events.DataEventReceiver, e AEv, vb *volatileBuf) {
 	case "OnNan":
 		recv.OnNan(e.Sp == "snan")
 	case "OnTime":
-		recv.OnTime(parseTimeKey(e.K))
+		switch {
+		case e.Sp == "nil":
+			recv.OnTime(compact_time.ZeroTime())
+		case !e.POK && timeOK(parseTimeKey(e.K)): // the model's "time out of range" made concrete
+			t := parseTimeKey(e.K)
+			if t.Type == compact_time.TimeTypeTime {
+				t.Hour = 24
+			} else {
+				t.Month = 13
+			}
+			recv.OnTime(t)
+		default:
+			recv.OnTime(parseTimeKey(e.K))
+		}
 	case "OnList":
 		recv.OnList()
 	case "OnMap":
